@@ -32,6 +32,9 @@ manifest = {
     "engines": [
         {"name": "hist", "path": "harness/drivers/hist.rs", "serves_properties": ["C01", "C02", "C07", "C08", "C09", "C10", "C20"], "kind_free_text": "random histories on an instrumented in-memory System, monitors after every invocation"},
         {"name": "sched", "path": "harness/drivers/sched.rs", "serves_properties": ["C03", "C04", "C05", "C06"], "kind_free_text": "seeded cooperative scheduler under the real build()/clean(), many schedules per scenario, plus free-running stress"},
+        {"name": "crash", "path": "harness/drivers/crash.rs", "serves_properties": ["C11"], "kind_free_text": "kill-point enumeration via disk snapshots before every mutation, recovery by the real build()"},
+        {"name": "contra", "path": "harness/drivers/contra.rs", "serves_properties": ["C17"], "kind_free_text": "undeclared-input scenarios forcing re-execution"},
+        {"name": "pair", "path": "harness/drivers/pair.rs", "serves_properties": ["C18"], "kind_free_text": "lock-step paired histories with/without the file-state table under two clock models"},
         {"name": "sort", "path": "harness/drivers/sortd.rs", "serves_properties": ["C12"], "kind_free_text": "exhaustive + random differential check of the sorter against a set-based reference"},
     ],
     "checks": checks,
